@@ -78,6 +78,8 @@ def _worker(args):
         kw.pop("split", None)
         if part and part[0] != 0:
             kw["witness_paths"] = 0  # witness replays (real code, possibly slow) once per case, not once per partition
+        if not part or part[0] == 0:
+            kw.setdefault("cross_budget", 2 if tier == "quick" else 8)
         if tier == "thorough":
             kw["time_budget"] = 4 * kw.get("time_budget", 600.0)  # the thorough tier may take its time; a budget hit is still reported as inconclusive
         known = [e for e in load_known(pid) if e.get("status") == "known"]
